@@ -759,7 +759,7 @@ fn ball_float<T: Flt>(sub: &mut Sub, cfg: &Config, idx: u64) {
     let moved: Vec<f64> = (0..3).map(|i| g(ko[i]) + cv[i]).collect();
     let dist = (moved[0] * moved[0] + moved[1] * moved[1] + moved[2] * moved[2]).sqrt();
     let scale = g(ks) + l / GRID + kc.iter().chain(kp.iter()).map(|x| g(x.abs())).fold(0.0, f64::max);
-    let tol = 64.0 * T::EPS * scale;
+    let tol = 256.0 * T::EPS * scale;
     if !((dist - g(ks)).abs() <= tol) {
         let vio = violation(PROP, sub, cv_api, T::NAME, "wrong_value", "not_tangent_after_move", format!("{}: vek returned {:?}; moved centre distance {:e}, expected r1+r2 = {:e} (tolerance {:e})", detail, cv, dist, g(ks), tol), cfg.case_seed(), idx);
         sub.violated(vio);
@@ -1086,7 +1086,7 @@ fn seg_float<T: Flt>(sub: &mut Sub, cfg: &Config, idx: u64) {
     };
     poison_guard!(sub);
     let scale = ka.iter().chain(kb.iter()).chain(kp.iter()).map(|x| f(x.abs())).fold(0.0, f64::max).max(1.0);
-    let tol = 64.0 * T::EPS * scale;
+    let tol = 256.0 * T::EPS * scale;
     let mut h = H64::new();
     h.s(T::NAME).u(n as u64);
     for x in ka.iter().chain(kb.iter()).chain(kp.iter()) {
@@ -1524,7 +1524,7 @@ fn main() {
         let nf = cfg.n(60_000, 2_000_000);
         let proto = Sub::new(
             "ball_float",
-            "f32/f64 Disk (even index) / Sphere (odd): contains_point, collides_with_*, collision_vector_with_* on a 2^-10 grid (exact inputs); radius sum within 0.1% of the centre distance, within 0.2..1.8 of it, or random; oracle in exact integer arithmetic; inconclusive when |d^2 - r^2| <= 64 eps max(d^2, r^2); tangent-after-move within 64 eps * scale",
+            "f32/f64 Disk (even index) / Sphere (odd): contains_point, collides_with_*, collision_vector_with_* on a 2^-10 grid (exact inputs); radius sum within 0.1% of the centre distance, within 0.2..1.8 of it, or random; oracle in exact integer arithmetic; inconclusive when |d^2 - r^2| <= 64 eps max(d^2, r^2); tangent-after-move within 256 eps * scale",
         )
         .with_floor(nf / 2);
         rep.push(run_cases(&cfg, proto, nf, |s, i| {
@@ -1561,7 +1561,7 @@ fn main() {
         let nf = cfg.n(60_000, 1_000_000);
         let proto = Sub::new(
             "segment_float",
-            "f32/f64 LineSegment2 (even index) / LineSegment3 (odd): projected_point and distance_to_point on a 2^-12 grid within +-256 (exact in f32), long / short / zero-length segments, p random or near an endpoint; oracle exact in Q; tolerance 64 eps * max|coordinate|; squared lengths in (0, 1e-6) are outside the domain (vek's epsilon band); non-trivial = non-degenerate segment",
+            "f32/f64 LineSegment2 (even index) / LineSegment3 (odd): projected_point and distance_to_point on a 2^-12 grid within +-256 (exact in f32), long / short / zero-length segments, p random or near an endpoint; oracle exact in Q; tolerance 256 eps * max|coordinate|; squared lengths in (0, 1e-6) are outside the domain (vek's epsilon band); non-trivial = non-degenerate segment",
         )
         .with_floor(nf / 2);
         rep.push(run_cases(&cfg, proto, nf, |s, i| {
